@@ -12,7 +12,9 @@ import (
 	"fmt"
 	"hash/fnv"
 	"reflect"
+	"runtime"
 	"runtime/debug"
+	"runtime/metrics"
 	"slices"
 	"strings"
 	"sync"
@@ -725,9 +727,59 @@ func RunOncePolicy(policy int, prefix []int, horizon int, conflicts map[string]b
 	return RunOnce(prefix, horizon, conflicts, reset, body)
 }
 
+// The explorer identifies memory locations by their address (access owners, release cells) and derives
+// happens-before hashes from them: the collector must not recycle an address INSIDE an execution, or the
+// same schedule gives different conflict sites, different cache keys and different object identities from
+// run to run. Collections therefore only happen between executions: the collector is switched off while
+// the explorer runs and called explicitly once enough was allocated (a soft memory limit remains as a
+// safety net for a single execution that allocates gigabytes).
+var (
+	gcDepth        int
+	gcOldPercent   int
+	gcOldLimit     int64
+	gcAllocsAtLast uint64
+	gcSample       = []metrics.Sample{{Name: "/gc/heap/allocs:bytes"}}
+)
+
+const gcEveryBytes = 192 << 20
+
+func gcAllocs() uint64 {
+	metrics.Read(gcSample)
+	if gcSample[0].Value.Kind() == metrics.KindUint64 {
+		return gcSample[0].Value.Uint64()
+	}
+	return 0
+}
+
+// gcHold switches the collector off (re-entrant); the returned function restores it.
+func gcHold() func() {
+	if gcDepth == 0 {
+		gcOldPercent = debug.SetGCPercent(-1)
+		gcOldLimit = debug.SetMemoryLimit(6 << 30)
+		gcAllocsAtLast = gcAllocs()
+	}
+	gcDepth++
+	return func() {
+		gcDepth--
+		if gcDepth == 0 {
+			debug.SetMemoryLimit(gcOldLimit)
+			debug.SetGCPercent(gcOldPercent)
+		}
+	}
+}
+
+func gcBetweenExecutions() {
+	if a := gcAllocs(); a-gcAllocsAtLast > gcEveryBytes {
+		runtime.GC()
+		gcAllocsAtLast = gcAllocs()
+	}
+}
+
 func runOnce(prefix []int, horizon int, conflicts map[string]bool, reset func(), body func(x *Exec), sleepMode bool, initSleep []int) *Exec {
 	big.Lock()
 	defer big.Unlock()
+	defer gcHold()()
+	gcBetweenExecutions()
 	if reset != nil {
 		reset()
 	}
@@ -773,6 +825,7 @@ func (x *Exec) Logf(format string, a ...any) {
 // exploration is restarted with them as additional scheduling points.
 func Explore(cfg Config, body func(x *Exec)) *Stats {
 	st := &Stats{Outcomes: map[string]int64{}, TraceHashes: map[uint64]struct{}{}}
+	defer gcHold()()
 	runPolicy = cfg.Policy
 	defer func() { runPolicy = 0 }()
 	if cfg.NShards <= 0 {
